@@ -70,6 +70,12 @@ def run_writer(write_fn, kill_at, how='sigkill'):
 		# child
 		try:
 			os.close(r)
+			# a writer process starts with the dispositions of an ordinary Python process, whatever the check itself inherited
+			# (a check started as a background job of a non-interactive shell, or under nohup, inherits SIGINT ignored, and
+			# Python then never installs its KeyboardInterrupt handler)
+			signal.signal(signal.SIGINT, signal.default_int_handler)
+			signal.signal(signal.SIGTERM, signal.SIG_DFL)
+			signal.pthread_sigmask(signal.SIG_UNBLOCK, {signal.SIGINT, signal.SIGTERM})
 			counter = [0]
 			log = []
 			died = _install(counter, kill_at, log, how)
